@@ -29,7 +29,7 @@ def consult_bodies(ctx):
                         if o and o['k'] in ('copy', 'move'):
                             pls.append(o['place'])
                     for pl in pls:
-                        if mem_loc(pl) == 'MultiRecordLog.next_persist' or any(f[1] == 'next_persist' and f[2] for f in place_fields(pl)):
+                        if any(f[1] == 'next_persist' and f[0] and f[0].endswith('MultiRecordLog') for f in place_fields(pl)):
                             hit = True
         if hit:
             out.append(b)
